@@ -262,6 +262,11 @@ Definition parse_into (nm : naive_mode) (p : precision) (c : pconstraint) (v : t
                end
   end.
 
+(* a value that is itself the result of an earlier parse_into_datetime(v, p, c): a STIXdatetime
+   whose fields were adjusted then; the precision attributes it carries play no role later *)
+Definition reparse (nm : naive_mode) (p : precision) (c : pconstraint) (v : tsinput) : tsinput :=
+  match parse_into nm p c v with Ok (l, o) => InDatetime l o | Raise _ => v end.
+
 (* format_datetime(parse_into_datetime(v, p, c)) -- also what
    TimestampProperty(p, c).clean + JSON serialization produce                *)
 Definition write (nm : naive_mode) (ym : year_mode) (p : precision) (c : pconstraint) (v : tsinput) : result ustring :=
